@@ -377,12 +377,16 @@ def main():
                 return canon
         return None
 
-    rlimit = spec.get("rlimit", 10) * (4 if tier == "thorough" else 1)
+    iso_rlimit = spec.get("rlimit", 10) * (4 if tier == "thorough" else 1)   # isolated invocations
     threads = int(os.environ.get("VERIF_THREADS", "16"))
     runs = []
-    seeds = [None] if tier == "quick" else [None, (seed % 1000) + 1]
-    # thorough: the whole crate - every source module, the ghost vocabulary, and the machine-generated lemma modules
-    verus_mods = modules if tier == "quick" else report["modules"] + ["model", "stdspec"] + list(report.get("generated_modules", []))
+    # thorough: the whole crate - every source module, the ghost vocabulary, and the machine-generated lemma modules - under two
+    # solver seeds at four times the resource limit, and then the quick configuration as well. One accepted proof of an
+    # obligation is a proof whatever another configuration's solver run gave up on, so an obligation counts as failed only if
+    # it fails in every configuration that contains it (the others are recorded as unstable).
+    whole = report["modules"] + ["model", "stdspec"] + list(report.get("generated_modules", []))
+    base_rl = spec.get("rlimit", 10)
+    configs = [(modules, base_rl, None)] if tier == "quick" else [(whole, base_rl * 4, None), (whole, base_rl * 4, (seed % 1000) + 1), (modules, base_rl, None)]
     per_fn = {}
     frontend_failed = None
     unsupported_in_contracted = []
@@ -390,11 +394,12 @@ def main():
     unstable = []
     total_smt_ms = 0
     checker_cmd = ""
-    for sd in seeds:
+    for ci, (verus_mods, rlimit, sd) in enumerate(configs):
         cmd, res, diags, err, wall = run_verus(gen, lib, verus_mods, rlimit, threads, sd,
                                                timeout=spec.get("timeout_s", 1500) * (3 if tier == "thorough" else 1))
-        checker_cmd = " ".join(cmd)
-        checker_cmd_box[0] = checker_cmd
+        if ci == 0:
+            checker_cmd = " ".join(cmd)
+            checker_cmd_box[0] = checker_cmd
         if res is None:
             undecided("verus produced no result", err)
         vr = res.get("verification-results", {})
@@ -513,7 +518,7 @@ def main():
             except ex.ExtractError as e:
                 undecided("extract (isolated %s): %s" % (iso["fn"], e))
             fn_short = "::".join(iso["fn"].split("::")[1:])
-            cmd_i, res_i, diags_i, err_i, wall_i = run_verus(gen_i, lib, [iso["module"]], rlimit, threads, None,
+            cmd_i, res_i, diags_i, err_i, wall_i = run_verus(gen_i, lib, [iso["module"]], iso_rlimit, threads, None,
                                                              extra=["--verify-function", fn_short], timeout=spec.get("timeout_s", 1500))
             if res_i is None:
                 undecided("verus produced no result (isolated %s)" % iso["fn"], err_i)
@@ -541,22 +546,38 @@ def main():
             total_smt_ms += tms
     if frontend_failed is not None:
         fallback(frontend_failed, "verus front-end error: unsupported construct in a contracted function, or ghost code no longer type-checks after a representation change")
-    # merge runs: an obligation failing in one seed and passing in another is unstable
-    first = runs[0]
-    for fq, ent in first["results"].items():
-        per_fn[fq] = dict(ent)
-    for r in runs[1:]:
-        for fq, ent in r["results"].items():
-            if fq in per_fn and per_fn[fq]["success"] != ent["success"]:
-                unstable.append(fq)
-    failures = [f for f in first["failures"] if f["fn"] and not f["fn"].startswith("~")]
-    for f in failures:
+    # merge runs: an obligation is failed only if it fails in every configuration that contains it
+    def failed_set(r):
+        fs_ = {fq for fq, e in r["results"].items() if not e["success"]}
         # e.g. a failed by(bit_vector) assertion is a separate query: the breakdown entry of the enclosing function may
         # still say success, the diagnostic decides
-        if f["fn"] in per_fn:
-            per_fn[f["fn"]]["success"] = False
+        fs_ |= {f["fn"] for f in r["failures"] if f["fn"] and not f["fn"].startswith("~")}
+        return fs_
+    first = runs[0]
+    for r in runs:
+        for fq, ent in r["results"].items():
+            if fq not in per_fn:
+                per_fn[fq] = dict(ent)
+    fsets = [failed_set(r) for r in runs]
+    some_failed = set().union(*fsets)
+    all_failed = set()
+    for fq in some_failed:
+        containing = [i for i, r in enumerate(runs) if fq in r["results"] or fq in fsets[i]]
+        if all(fq in fsets[i] for i in containing):
+            all_failed.add(fq)
+    unstable = sorted(some_failed - all_failed)
+    failures = []
+    for fq in sorted(all_failed):
+        i0 = next(i for i, fs_ in enumerate(fsets) if fq in fs_)
+        failures += [f for f in runs[i0]["failures"] if f["fn"] == fq]
+        if fq in per_fn:
+            per_fn[fq]["success"] = False
         else:
-            per_fn[f["fn"]] = {"success": False, "time_ms": 0, "rlimit": 0, "verus_names": []}
+            per_fn[fq] = {"success": False, "time_ms": 0, "rlimit": 0, "verus_names": []}
+    for fq in unstable:
+        if fq in per_fn:
+            per_fn[fq]["success"] = True
+            per_fn[fq]["note"] = "accepted in one configuration, given up in another (unstable query; one accepted proof suffices)"
     for fq, ent in iso_results.items():
         per_fn[fq] = {k: v for k, v in ent.items() if k not in ("failures", "cmd", "wall_s")}
         failures = [f for f in failures if f["fn"] != fq] + ent["failures"]
@@ -699,7 +720,7 @@ def main():
             "per_backend": {"verus": len(obligations),
                             **{s["name"]: s.get("obligations", 0) for s in secondary}},
             "solver_time_s": round(total_smt_ms / 1000.0, 2),
-            "rlimit": rlimit,
+            "rlimit": configs[0][1],
             "verus_runs": [{"seed": r["seed"], "wall_s": r["wall_s"], "verified_items": r["verified"],
                             "errors_in_modules": r["errors"]} for r in runs],
             "failed_obligations": failed,
